@@ -158,7 +158,7 @@ SPECS = {
             '/*C01.rootopt*/ ({ let run = opt_run(old(self).lexems@, old(self).index as int, opt_init(), false); '
             '!opt_stops_at_word(old(self).lexems@, run.1) ==> (r == opt_result(run.0) && final(self).index >= run.1 && '
             '(run.1 < old(self).lexems@.len() ==> final(self).index == run.1)) })'],
-        proofs={r'let\s+lexem\s*=\s*self\.next_lexem\(\);': 'broadcast use axiom_pat_view_str; proof { opt_reveal_literals(); }'},
+        proofs={r'let\s+lexem\s*=\s*self\.next_lexem\(\);': 'broadcast use axiom_pat_view_str; proof { opt_reveal_literals(); opt_reveal_literals_auto(); }'},
         loops={0: dict(
             invariant=LOOPINV,
             invariant_except_break=[
@@ -182,7 +182,7 @@ SPECS = {
                        invariant_except_break=['/*C11.fields.skip*/ pf_skip(verif_pt) ==> (fields@ == verif_pf && self.index == verif_pi + 1)'])}),
     # every documented option name (any letter case) is recognised as one
     'is_root_option_keyword': dict(ret='r', ensures=['/*C11.rootopt.keyword*/ opt_doc_name(opt_init(), s@, true) is Some ==> r'],
-                                   proofs={r'let\s+s\s*=\s*s\.to_ascii_lowercase\(\);': 'broadcast use axiom_pat_view_str; proof { opt_reveal_literals(); }'}),
+                                   proofs={r'let\s+s\s*=\s*s\.to_ascii_lowercase\(\);': 'broadcast use axiom_pat_view_str; proof { opt_reveal_literals(); opt_reveal_literals_auto(); }'}),
     'negate_expr_op': dict(ret='r', attrs=[NODEC], rewrites=[('let &Some(op) = &expr.op', 'let Some(op) = expr.op')],
                            ensures=['/*C03.demorgan*/ cond_wf(*expr) ==> cond_wf(r)',
                                     '/*C03.demorgan*/ cond_wf(*expr) ==> cond_sem(r) == !cond_sem(*expr)'],
